@@ -1012,6 +1012,13 @@ kv_parse_sstables(ldb_t *db, uint64_t *nums, int *levels, int max) {
 /* (b) directory holds exactly the live files */
 int
 kv_files_exact_check(ldb_t *db, const char *dbdir, char *err, size_t en) {
+  return kv_files_exact_check2(db, dbdir, -1, err, en);
+}
+
+/* min_log >= 0: the log number recorded in the live MANIFEST - every log file numbered >= min_log
+ * is live (lcdb replays them all at the next open), anything older is garbage */
+int
+kv_files_exact_check2(ldb_t *db, const char *dbdir, long long min_log, char *err, size_t en) {
   char names[256][64];
   uint64_t nums[64];
   int levels[64], n, nn, i, j, nlogs = 0, ncur = 0, nman = 0;
@@ -1046,7 +1053,14 @@ kv_files_exact_check(ldb_t *db, const char *dbdir, char *err, size_t en) {
       }
       continue;
     }
-    if (l > 4 && strcmp(nm + l - 4, ".log") == 0) { nlogs++; continue; }
+    if (l > 4 && strcmp(nm + l - 4, ".log") == 0) {
+      nlogs++;
+      if (min_log >= 0 && (long long)strtoull(nm, NULL, 10) < min_log) {
+        snprintf(err, en, "obsolete write-ahead log %s (older than the log number %lld recorded in the MANIFEST) left after the operation completed", nm, min_log);
+        return 0;
+      }
+      continue;
+    }
     if (l > 4 && (strcmp(nm + l - 4, ".ldb") == 0 || strcmp(nm + l - 4, ".sst") == 0)) {
       uint64_t num = strtoull(nm, NULL, 10);
       for (j = 0; j < n; j++)
@@ -1069,7 +1083,7 @@ kv_files_exact_check(ldb_t *db, const char *dbdir, char *err, size_t en) {
     snprintf(err, en, "directory has %d CURRENT and %d MANIFEST files", ncur, nman);
     return 0;
   }
-  if (nlogs != 1) {
+  if ((min_log < 0 && nlogs != 1) || nlogs < 1) {
     snprintf(err, en, "%d write-ahead logs left after the operation completed (expected exactly the live one)", nlogs);
     return 0;
   }
